@@ -60,6 +60,23 @@ PACMAN_SMALL_MAZE = [
 ]
 
 
+# 11x15 map whose tunnel (row 5) is open at both ends; the player starts one cell from the left mouth and the ghosts
+# far away on the right, so that random play crosses the wrap-around within a few steps
+PACMAN_TUNNEL_MAZE = [
+    "XXXXXXXXXXXXXXX",
+    "XS     T     SX",
+    "X XXXX X XXXX X",
+    "XO          GOX",
+    "X XXXX X XXXX X",
+    " P   T   T  G  ",
+    "X XXXX X XXXX X",
+    "XO          GOX",
+    "X XXXX X XXXX X",
+    "XS     T    GSX",
+    "XXXXXXXXXXXXXXX",
+]
+
+
 def _E():
     import jumanji.environments as E
 
@@ -180,6 +197,8 @@ def _menus():
     add("Sudoku", "dummy", lambda **k: E.Sudoku(generator=DummyGenerator()))
     add("Sudoku", "veryeasy", lambda **k: E.Sudoku(generator=DatabaseGenerator(_sudoku_db("very-easy"))))
     add("Sudoku", "mixed", lambda **k: E.Sudoku())
+    # the DatabaseGenerator docstring only asks for an (N, 9, 9) array with 0 = empty, 1..9 = clues: also as uint8
+    add("Sudoku", "veryeasy_u8", lambda **k: E.Sudoku(generator=DatabaseGenerator(_sudoku_db("very-easy").astype(np.uint8))))
 
     # ---- packing
     from jumanji.environments.packing.bin_pack import generator as bpg
@@ -360,6 +379,9 @@ def _menus():
         add("PacMan", f"small{t}", lambda t=t, time_limit="dflt", **k: E.PacMan(
             generator=AsciiGenerator(PACMAN_SMALL_MAZE), time_limit=t if time_limit == "dflt" else time_limit),
             time_limit=t, maze="small")
+    add("PacMan", "tunnel60", lambda time_limit="dflt", **k: E.PacMan(
+        generator=AsciiGenerator(PACMAN_TUNNEL_MAZE), time_limit=60 if time_limit == "dflt" else time_limit),
+        time_limit=60, maze="tunnel")
     from jumanji.environments.routing.robot_warehouse.generator import RandomGenerator as RWGen
     for sr, sc, ch, a, sens, q, t in ((1, 3, 2, 1, 1, 1, 7), (1, 3, 3, 2, 1, 2, 500), (1, 3, 3, 3, 2, 2, 3),
                                       (2, 3, 8, 4, 1, 8, 500), (1, 3, 3, 2, 1, 2, 2), (2, 3, 2, 2, 2, 2, 1),
@@ -377,7 +399,7 @@ def _menus():
             rows=r, cols=c, time_limit=t)
     from jumanji.environments.routing.sokoban import generator as skg
     for gen, t in (("toy", 120), ("simple", 7), ("random", 3), ("random", 120), ("toy", 2), ("simple", 1),
-                   ("random", 30), ("simple", 120)):
+                   ("random", 30), ("simple", 120), ("simple", 10)):
         def sk(gen=gen, t=t, time_limit=None, **k):
             g = {"toy": skg.ToyGenerator, "simple": skg.SimpleSolveGenerator,
                  "random": _sokoban_random_generator}[gen]()
@@ -406,13 +428,13 @@ def entries(env: str) -> list:
 QUICK = {
     "Game2048": ["b3", "b4"], "GraphColoring": ["n6p8", "n20p8"], "Minesweeper": ["r3c5m3", "default", "r2c2m1"],
     "RubiksCube": ["n2s1t3", "n3s7t7"], "SlidingTilePuzzle": ["g3m50t7d", "g2m1t3s"],
-    "Sudoku": ["veryeasy", "dummy"], "BinPack": ["r10e20s2", "r5e10s1o6"], "FlatPack": ["r2c3b", "r3c2c"],
+    "Sudoku": ["veryeasy", "dummy", "veryeasy_u8"], "BinPack": ["r10e20s2", "r5e10s1o6"], "FlatPack": ["r2c3b", "r3c2c"],
     "JobShop": ["j3m2o3d2", "j5m4o4d4"], "Knapsack": ["n10s", "n50d", "q8d"], "Tetris": ["r6c5t400", "r10c10t400"],
     "Cleaner": ["r3c7a1t7", "r5c11a2tNone", "r3c3a2tNone"], "Connector": ["g5a2t7rw", "g6a3t50rw"],
     "CVRP": ["n5s", "n20d"], "LevelBasedForaging": ["g6a2f2v2l2cVNp0t100", "g8a3f3v3l3nGRp5t100", "g7a2f3v7l2nGRp0t40", "g5a3f1v5l2nVNp0t40"],
     "Maze": ["r4c7tNone", "r5c5t7"], "MMST": ["n12e18a2k3t7", "n12e18a3k2t30"], "MultiCVRP": ["c6v2d", "c6v3s"],
-    "PacMan": ["t40", "small200"], "RobotWarehouse": ["s1x3h3a2r1q2t500", "s1x3h2a1r1q1t7"],
-    "Snake": ["r6c4t7", "r3c3t4000"], "Sokoban": ["simplet120", "randomt120"], "TSP": ["n5d", "n3d"],
+    "PacMan": ["t40", "small200", "tunnel60"], "RobotWarehouse": ["s1x3h3a2r1q2t500", "s1x3h2a1r1q1t7"],
+    "Snake": ["r6c4t7", "r3c3t4000"], "Sokoban": ["simplet120", "randomt120", "simplet10"], "TSP": ["n5d", "n3d"],
 }
 
 
